@@ -976,6 +976,40 @@ int __wrap_chdir(const char *path)
   return 0;
 }
 
+/* stat family: what the simulated file system knows about a name / what kind of object a descriptor refers to */
+#include <sys/stat.h>
+extern int __real_stat(const char *, struct stat *);
+extern int __real_lstat(const char *, struct stat *);
+extern int __real_fstat(int, struct stat *);
+static void fill_stat(struct stat *st, int fl)
+{
+  memset(st, 0, sizeof *st);
+  st->st_mode = (fl & FS_DIR) ? (S_IFDIR | 0755) : (fl & FS_FIFO) ? (S_IFIFO | 0644) : (S_IFREG | ((fl & FS_EXEC) ? 0755 : 0644));
+  st->st_nlink = 1;
+}
+int __wrap_stat(const char *path, struct stat *st)
+{
+  if (!K || !K->in_api) return __real_stat(path, st);
+  if (!strcmp(path, "/dev/null")) { memset(st, 0, sizeof *st); st->st_mode = S_IFCHR | 0666; return 0; }
+  int fl = fs_lookup(path);
+  if (!(fl & FS_EXISTS)) { errno = ENOENT; return -1; }
+  fill_stat(st, fl);
+  return 0;
+}
+int __wrap_lstat(const char *path, struct stat *st) { if (!K || !K->in_api) return __real_lstat(path, st); return __wrap_stat(path, st); }
+int __wrap_fstat(int fd, struct stat *st)
+{
+  if (!K || !K->in_api) return __real_fstat(fd, st);
+  struct sk_proc *p = ME;
+  if (fd < 0 || fd >= SK_MAXFD || p->fd[fd].ofd < 0) { errno = EBADF; return -1; }
+  struct sk_obj *o = &K->obj[K->ofd[p->fd[fd].ofd].obj];
+  memset(st, 0, sizeof *st);
+  if (o->kind == OK_PIPE) st->st_mode = S_IFIFO | 0600;
+  else if (o->kind == OK_FILE) fill_stat(st, o->fsflags ? o->fsflags : FS_EXISTS);
+  else st->st_mode = S_IFCHR | 0620;
+  return 0;
+}
+
 int __wrap_fchdir(int fd)
 {
   int e = fault(FK_CHDIR);
